@@ -252,6 +252,8 @@ func c13Stack(r *eng.Run) {
 	src := NewPipe(r, wire.Out)
 	src.Marks = MarksOf(fs)
 	src.SegMode = DrawSeg(r)
+	src.EOFWithData = r.T.Chance(sim.LFault, 1, 4) // the last bytes arrive together with io.EOF
+	src.ZeroReads = r.T.Chance(sim.LFault, 1, 8)
 	var rms wsflate.MessageState
 	var gotPings [][]byte
 	curCompressed := false
@@ -380,12 +382,22 @@ func c13Scripted(r *eng.Run) {
 	withPing := r.T.Bool(sim.LCtrl)
 	frag := r.T.Bool(sim.LNFrag)
 	var frames []*ref.Frame
+	nested := -1
 	frames = append(frames, mk(ref.OpBinary, !frag, a, r.T.Int(sim.LLen, 20)))
 	if frag {
 		if withPing {
 			frames = append(frames, mk(ref.OpPing, true, b, r.T.Int(sim.LLen, 10)))
 		}
 		frames = append(frames, mk(ref.OpCont, true, c, r.T.Int(sim.LLen, 20)))
+		if r.T.Chance(sim.LFault, 1, 6) {
+			// Instead of the continuation a new data frame (with whatever
+			// reserved bits): RSV1 belongs to the first frame of a message only,
+			// a second "first frame" inside the open message is refused.
+			nested = len(frames) - 1
+			frames[nested].Op = []byte{ref.OpText, ref.OpBinary}[r.T.Int(sim.LOp, 2)]
+			frames[nested].Fin = r.T.Bool(sim.LFault)
+			r.Probe("data_frame_with_rsv_inside_open_message")
+		}
 	} else if withPing {
 		frames = append(frames, mk(ref.OpPing, true, b, r.T.Int(sim.LLen, 10)))
 	}
@@ -419,7 +431,7 @@ func c13Scripted(r *eng.Run) {
 		rd.Source = bufio.NewReaderSize(p, []int{16, 64, 4096}[r.T.Int(sim.LSize, 3)])
 		r.Probe("reader_source_is_bufio_reader")
 	}
-	if r.T.Chance(sim.LCfg, 1, 4) {
+	if r.T.Chance(sim.LCfg, 1, 4) && nested < 0 {
 		rd.SkipHeaderCheck = true
 		rd.State = sideState(side)
 		r.Probe("reader_skips_header_check_without_extended_state")
@@ -437,6 +449,10 @@ func c13Scripted(r *eng.Run) {
 	badIdx := -1
 	for i, f := range frames {
 		if (ref.IsControl(f.Op) || f.Op == ref.OpCont) && f.Rsv&4 != 0 {
+			badIdx = i
+			break
+		}
+		if i == nested {
 			badIdx = i
 			break
 		}
